@@ -110,6 +110,14 @@ func genC15(t *Tape) (*SrvScenario, *c15Info, bool) {
 	nconn := 1 + t.PickAs("nconn", 5, 3, 2)
 	tidBase := 1 + t.ChooseAs("tidbase", 60000)
 	info := &c15Info{}
+	// a long session: one connection that stays open for some hundred requests (a poller's working day), so that
+	// whatever the server keeps per connection - buffers, windows, counters - is used far beyond its first few frames
+	longSession := 0
+	if !t.Has("nconn") && !t.Has("nreq") && !t.Has("cutmode") && !t.Has("fc") && t.Chance(1, 150) {
+		longSession = 90 + t.Choose(340)
+		nconn = 1
+		sc.LongPauses = true
+	}
 	for ci := 0; ci < nconn; ci++ {
 		plan := SrvConnPlan{}
 		plan.Pipelined = t.ChooseAs("pipelined", 2) == 1
@@ -124,6 +132,12 @@ func genC15(t *Tape) (*SrvScenario, *c15Info, bool) {
 			bigBurst = true
 			nreq = 3 + t.Choose(6)
 		}
+		if longSession > 0 {
+			nreq, bigBurst = longSession, false
+			if cutMode == 3 || cutMode == 6 {
+				cutMode = 4
+			}
+		}
 		fc17 := false
 		for ri := 0; ri < nreq; ri++ {
 			fc := AllFCs[t.ChooseAs("fc", len(AllFCs))]
@@ -132,6 +146,9 @@ func genC15(t *Tape) (*SrvScenario, *c15Info, bool) {
 			}
 			// small requests most of the time: the cut space of short streams is what matters
 			tid := uint16(tidBase + ci*16 + ri)
+			if longSession > 0 && t.Chance(3, 4) {
+				fc = []byte{3, 4, 1, 6}[t.Choose(4)] // mostly the short read requests of a poller
+			}
 			r, ok := genValidSrvReq(t, fc, byte(1+ci), tid)
 			if bigBurst {
 				r, ok = genBigWriteReq(t, fc, byte(1+ci), tid)
@@ -230,7 +247,11 @@ func genC15(t *Tape) (*SrvScenario, *c15Info, bool) {
 		for _, c := range append(cs, total) {
 			plan.Writes = append(plan.Writes, c-prev)
 			g := time.Duration(0)
-			switch t.PickAs("gapsel", 5, 2, 2) {
+			sel := t.PickAs("gapsel", 5, 2, 2)
+			if longSession > 0 && !t.Chance(1, 10) {
+				sel = 0
+			}
+			switch sel {
 			case 1:
 				g = time.Duration(100+t.Choose(900)) * time.Microsecond
 			case 2:
@@ -239,7 +260,7 @@ func genC15(t *Tape) (*SrvScenario, *c15Info, bool) {
 			plan.Gaps = append(plan.Gaps, g)
 			prev = c
 		}
-		if !t.Has("cutmode") && len(plan.Gaps) >= 2 && t.Chance(1, 40) {
+		if !t.Has("cutmode") && longSession == 0 && len(plan.Gaps) >= 2 && t.Chance(1, 40) {
 			// a slow talker: two pauses of 13-20 simulated seconds (each below the server's 25 s idle limit, together above it)
 			for k := 0; k < 2; k++ {
 				plan.Gaps[1+t.Choose(len(plan.Gaps)-1)] = time.Duration(13000+t.Choose(7000)) * time.Millisecond
@@ -283,7 +304,7 @@ func genC15(t *Tape) (*SrvScenario, *c15Info, bool) {
 	// some handlers take simulated time, so pipelined bytes pile up while a request is being served
 	for ci := range sc.Conns {
 		for ri := range sc.Conns[ci].Reqs {
-			if !t.Has("cutmask") && t.Chance(1, 5) {
+			if !t.Has("cutmask") && t.Chance(1, 5) && (longSession == 0 || t.Chance(1, 8)) {
 				sc.Conns[ci].Reqs[ri].Mode = HSlow
 				sc.Conns[ci].Reqs[ri].Work = time.Duration(1+t.Choose(30)+60*t.Choose(2)) * time.Millisecond
 			}
